@@ -53,8 +53,8 @@ def gen_case(rng, sim, nmax=12, buggify=None, horizon=None, allow_rho=True, dire
              zero_delays=True):
     time, model, has_r0, finite_default = SIMS[sim]
     label = rng.choice(cases.LABEL_SCHEMES)
-    ew = rng.choice([None, None, "dyadic", "tenth", "somezero", "twolevel"])
-    nw = rng.choice([None, None, "dyadic", "tenth", "somezero", "twolevel"])
+    ew = rng.choice([None, None, None, "dyadic", "tenth", "somezero", "twolevel", "wide", "tiny"])
+    nw = rng.choice([None, None, None, "dyadic", "tenth", "somezero", "twolevel", "wide", "tiny"])
     case = {"sim": sim}
     if sim == "Gillespie_simple_contagion":
         c = contagion.gen_simple_case(rng, nmax=min(nmax, 8))
